@@ -1355,6 +1355,23 @@ func loopHeadIn(p *Program, r *Reporter, a *anchors, fn *ssa.Function, field str
 			}
 			if _, ok := staticCalleeIs(ins, a.compile); ok {
 				between = append(between, "<compile>")
+			} else if c, ok := ins.(*ssa.Call); ok && c.Call.StaticCallee() != nil && c.Call.StaticCallee() != fn && fnPkg(c.Call.StaticCallee()) != nil && fnPkg(c.Call.StaticCallee()).Pkg.Path() == Mod && !isEmitHelper(p, a, c.Call.StaticCallee()) {
+				// a part of the translation kept in a function of its own (the
+				// "condition, jump, guarded code" prologue): what it does, in order
+				h := c.Call.StaticCallee()
+				for _, hb := range h.Blocks {
+					for _, hi := range hb.Instrs {
+						if es, ok := emitAt(p, a, hi); ok && es.op != "" {
+							between = append(between, es.op)
+							if es.op == "OpJumpIfFalse" {
+								hasCond = true
+							}
+						}
+						if _, ok := staticCalleeIs(hi, a.compile); ok {
+							between = append(between, "<compile>")
+						}
+					}
+				}
 			}
 			return false
 		})
@@ -1640,7 +1657,14 @@ func narrowHelperOK(p *Program, hc *ssa.Call) (bool, string) {
 	if a.prepare == nil {
 		return false, "cannot find Prepare"
 	}
-	for _, b := range a.prepare.Blocks {
+	stage, _, _ := prepareStage(p, a)
+	var blocks []*ssa.BasicBlock
+	blocks = append(blocks, a.prepare.Blocks...)
+	if stage != a.prepare {
+		// (the stage's error is Prepare's: R-ERRPROP sees to that)
+		blocks = append(blocks, stage.Blocks...)
+	}
+	for _, b := range blocks {
 		for _, ins := range b.Instrs {
 			ld, ok := ins.(*ssa.UnOp)
 			if !ok || ld.Op != token.MUL || fieldKey(ld.X) != rec {
@@ -1883,16 +1907,11 @@ func rulePrepareFresh(p *Program, r *Reporter) {
 			}
 		}
 	}
-	var compileCall *ssa.Call
-	for _, b := range a.prepare.Blocks {
-		for _, ins := range b.Instrs {
-			if c, ok := staticCalleeIs(ins, a.compile); ok {
-				compileCall = c
-			}
-		}
-	}
+	// the compile call: in Prepare, or in a stage of Prepare that has a
+	// function of its own (called from Prepare only)
+	stage, stageCall, compileCall := prepareStage(p, a)
 	if compileCall == nil {
-		r.Undecided("compile call in Prepare", p.Pos(a.prepare.Pos()), "Prepare does not call the compiler directly")
+		r.Undecided("compile call in Prepare", p.Pos(a.prepare.Pos()), "neither Prepare nor a function only Prepare calls calls the compiler")
 		return
 	}
 	var names []string
@@ -1912,12 +1931,21 @@ func rulePrepareFresh(p *Program, r *Reporter) {
 			n, fld, ok := fieldOf(st.Addr)
 			return ok && n != nil && n.Obj().Name() == "Eval" && fld == fld0 && isFreshEmpty(st.Val)
 		}
-		for _, b := range a.prepare.Blocks {
+		for _, b := range stage.Blocks {
 			for _, ins := range b.Instrs {
 				// the store itself, or a call of a function that makes it on
 				// every one of its paths
 				if performs(ins, isReset, 2) && dominatesInstr(ins, compileCall) {
 					reset = true
+				}
+			}
+		}
+		if stageCall != nil {
+			for _, b := range a.prepare.Blocks {
+				for _, ins := range b.Instrs {
+					if performs(ins, isReset, 2) && ins != ssa.Instruction(stageCall) && dominatesInstr(ins, stageCall) {
+						reset = true
+					}
 				}
 			}
 		}
@@ -2393,4 +2421,41 @@ func isInterpreterOnly(p *Program, fn *ssa.Function) bool {
 		return false
 	}
 	return interpreterOnly(p, a)[fn]
+}
+
+// prepareStage: the function that calls the compiler on Prepare's behalf —
+// Prepare itself, or a function whose only static call is in Prepare (one
+// level: `compileProgram(program)`); the call of that function in Prepare (nil
+// when it is Prepare) and the compile call.
+func prepareStage(p *Program, a *anchors) (*ssa.Function, *ssa.Call, *ssa.Call) {
+	find := func(f *ssa.Function) *ssa.Call {
+		var out *ssa.Call
+		for _, b := range f.Blocks {
+			for _, ins := range b.Instrs {
+				if c, ok := staticCalleeIs(ins, a.compile); ok {
+					out = c
+				}
+			}
+		}
+		return out
+	}
+	if c := find(a.prepare); c != nil {
+		return a.prepare, nil, c
+	}
+	for _, b := range a.prepare.Blocks {
+		for _, ins := range b.Instrs {
+			sc, ok := ins.(*ssa.Call)
+			if !ok || sc.Call.StaticCallee() == nil || fnPkg(sc.Call.StaticCallee()) == nil || fnPkg(sc.Call.StaticCallee()).Pkg.Path() != Mod {
+				continue
+			}
+			h := sc.Call.StaticCallee()
+			if h == a.compile || len(staticCallSites(p, h)) != 1 || functionUsedAsValue(p, h) {
+				continue
+			}
+			if c := find(h); c != nil {
+				return h, sc, c
+			}
+		}
+	}
+	return a.prepare, nil, nil
 }
